@@ -93,18 +93,16 @@ namespace DFS
 	// in the root.  So, it's possible that this assertion may
 	// fire for non-root HDFS directories.
 	assert(disc_format() != Format::HDFS);
-	if (byte106 & 4)
-	  {
-	    // Watford large disk; TODO: decide whether the Format
-	    // enum should distinguish those.
-	    assert(disc_format() == Format::WDFS);
-	  }
-	else
-	  {
-	    assert(disc_format() == Format::WDFS ||
-		   disc_format() == Format::DFS ||
-		   disc_format() == Format::OpusDDOS);
-	  }
+	// If (byte106 & 4) this is perhaps a Watford large disk
+	// (TODO: decide whether the Format enum should distinguish
+	// those).  But that is a property of the data in the image
+	// file, not of this program, so we cannot assert that the
+	// format we detected (from the recognition bytes in sector 2)
+	// is Format::WDFS; the bit is also used by Solidisk DDFS,
+	// whose discs we treat as Acorn DFS discs.
+	assert(disc_format() == Format::WDFS ||
+	       disc_format() == Format::DFS ||
+	       disc_format() == Format::OpusDDOS);
       }
   }
 
